@@ -185,4 +185,112 @@ theorem never_permanently_silent_timed (s : Station) (apps : Apps) (l : Int) (hi
     (by intro x hx; simp at hx; have := hmono j; rcases hx with rfl | rfl | rfl <;> omega)
     (by simp)
 
+/-! ## The three recovery mechanisms at whole-poll level -/
+
+/-- **`claim_progress`** (lost token): a station in `ListenToken` or `ActiveIdle` — with or without a
+pending status request, `handle_lost_token` comes first — whose bus has been silent for its token-lost
+time-out (and for the 33-bit synchronisation pause, which is shorter for all sensible parameters)
+transmits the self-addressed token in this very poll and ends in `ClaimToken(SecondToken)` with a
+valid LAS view and the GAP sweep reset to its own address. -/
+theorem claim_progress (c : Ctx) (now l : Int) (hinv : Inv c.s c.apps) (hon : c.s.online = true)
+    (htx : c.tx = none) (hrx : c.rx = []) (hl : c.s.lastBusActivity = some l)
+    (hidle : (∃ sr coll, c.s.st = .listenToken sr coll) ∨ (∃ sr np coll, c.s.st = .activeIdle sr np coll))
+    (hsil : (now - l).natAbs ≥ c.s.p.tokenLostTimeout) (hsync : l + (c.s.p.bits 33 : Nat) < now) :
+    ∃ c', pollInner c now false = .ok c' ∧ Inv c'.s c'.apps ∧
+      c'.tx = some (selfToken c.s.p.address) ∧ c'.s.st = .claimToken .secondToken ∧
+      c'.s.gap = .doPoll c.s.p.address ∧ c'.s.ring = c.s.ring.claimToken ∧ c'.calls = c.calls := by
+  have hs : Sil c l := ⟨hon, htx, hrx, hl⟩
+  have hidle' : IdleLike c.s.st := by
+    rcases hidle with ⟨a, b, h⟩ | ⟨a, b, d, h⟩
+    · exact Or.inr ⟨a, b, h⟩
+    · exact Or.inl ⟨a, b, d, h⟩
+  have hno : c.s.st ≠ .offline := by
+    rcases hidle with ⟨a, b, h⟩ | ⟨a, b, d, h⟩ <;> rw [h] <;> simp
+  obtain ⟨c', h, hi, -⟩ := pollInner_good c now false hinv htx
+  refine ⟨c', h, hi, ?_⟩
+  rw [pollInner_dispatch c now l hs hinv hno (by omega), idle_claims c now l hs hidle' hsil] at h
+  obtain ⟨-, -, h3⟩ := claimFirst_result c now l hs c' h
+  rcases h3 with ⟨a, b, d, e, -, f⟩ | ⟨-, hw⟩
+  · exact ⟨a, b, d, e, f⟩
+  · omega
+
+/-- **`supervision_progress`** (lost successor): in `CheckTokenPass att` with the slot time expired,
+nothing received (and the synchronisation pause over), the poll retransmits: after the first and
+second expiry the same token goes to the same NS, the ring view only records the own pass; after the
+third expiry NS is removed from the LAS and the token goes to the new NS — or, when the station is
+now alone, it keeps the token (`UseToken`). -/
+theorem supervision_progress (c : Ctx) (now l : Int) (hinv : Inv c.s c.apps) (hon : c.s.online = true)
+    (htx : c.tx = none) (hrx : c.rx = []) (hl : c.s.lastBusActivity = some l)
+    (att : Attempt) (hst : c.s.st = .checkTokenPass att)
+    (hslot : l + (c.s.p.slotTime : Nat) < now) (hsync : l + (c.s.p.bits 33 : Nat) < now) :
+    ∃ c', pollInner c now false = .ok c' ∧ Inv c'.s c'.apps ∧ c'.calls = c.calls ∧
+      ∃ r next, (match att with
+          | .first => r = c.s.ring ∧ next = Attempt.second
+          | .second => r = c.s.ring ∧ next = Attempt.third
+          | .third => c.s.ring.removeStation c.s.ring.ns = some r ∧ r.isActive c.s.ring.ns = false ∧ next = Attempt.first) ∧
+        c'.tx = some (sendToken (UInt8.ofNat r.ns) (UInt8.ofNat c.s.p.address)) ∧
+        c'.s.ring = r.witness c.s.p.address r.ns ∧
+        c'.s.st = (if c'.s.ring.ns = c.s.p.address then .useToken ⟨now, none⟩ false else .checkTokenPass next) := by
+  have hs : Sil c l := ⟨hon, htx, hrx, hl⟩
+  have hno : c.s.st ≠ .offline := by rw [hst]; simp
+  obtain ⟨c', h, hi, -⟩ := pollInner_good c now false hinv htx
+  refine ⟨c', h, hi, ?_⟩
+  rw [pollInner_dispatch c now l hs hinv hno (by omega)] at h
+  unfold dispatch at h
+  rw [hst] at h
+  simp only at h
+  rw [check_expired c now l hs att hst (by omega) hsync] at h
+  cases att with
+  | first =>
+    simp only at h
+    obtain ⟨-, h1, -, -, -, h5, -, h7, h8⟩ := passTokenOn_sends _ now _ c' h
+    exact ⟨h5, c.s.ring, .second, ⟨rfl, rfl⟩, h1, h7, h8⟩
+  | second =>
+    simp only at h
+    obtain ⟨-, h1, -, -, -, h5, -, h7, h8⟩ := passTokenOn_sends _ now _ c' h
+    exact ⟨h5, c.s.ring, .third, ⟨rfl, rfl⟩, h1, h7, h8⟩
+  | third =>
+    simp only at h
+    cases hr : c.s.ring.removeStation c.s.ring.ns with
+    | none => rw [hr] at h; cases h
+    | some r =>
+      rw [hr] at h
+      simp only at h
+      obtain ⟨-, h1, -, -, -, h5, -, h7, h8⟩ := passTokenOn_sends _ now _ c' h
+      exact ⟨h5, r, .first, ⟨rfl, removeStation_inactive _ _ _ hr, rfl⟩, h1, h7, h8⟩
+
+/-- **`reply_timeout_progress`** (lost reply): in `AwaitDataResponse` with the slot time expired and
+nothing received, exactly one `timeout` record for the requesting application is appended, and the
+poll continues as token holder — it *is* the `UseToken` poll (first cycle done) on the resulting
+context; whatever that records afterwards are `transmit_telegram` calls only. -/
+theorem reply_timeout_progress (c : Ctx) (now l : Int) (hinv : Inv c.s c.apps) (hon : c.s.online = true)
+    (htx : c.tx = none) (hrx : c.rx = []) (hl : c.s.lastBusActivity = some l)
+    (addr : Nat) (d : UseData) (hst : c.s.st = .awaitData addr d) (hslot : l + (c.s.p.slotTime : Nat) < now) :
+    ∃ c' extra, pollInner c now false = .ok c' ∧ Inv c'.s c'.apps ∧
+      pollInner c now false =
+        doUseToken { c with calls := c.calls ++ [.timeout c.s.nextApp addr], s := { c.s with st := .useToken d true } } now ∧
+      c'.calls = c.calls ++ [.timeout c.s.nextApp addr] ++ extra ∧ OnlyTransmitCalls extra := by
+  have hs : Sil c l := ⟨hon, htx, hrx, hl⟩
+  have hno : c.s.st ≠ .offline := by rw [hst]; simp
+  obtain ⟨c', h, hi, -⟩ := pollInner_good c now false hinv htx
+  have heq : pollInner c now false =
+      doUseToken { c with calls := c.calls ++ [.timeout c.s.nextApp addr], s := { c.s with st := .useToken d true } } now := by
+    rw [pollInner_dispatch c now l hs hinv hno (by omega)]
+    unfold dispatch
+    rw [hst]
+    simp only
+    exact awaitData_timeout c now l addr d hs hst (hinv.appWait addr d hst) (by omega)
+  rw [heq] at h
+  obtain ⟨extra, he, ho⟩ := doUseToken_calls _ now c' h
+  exact ⟨c', extra, heq.trans h, hi, heq, he, ho⟩
+
+/-- And when the poll is also past the synchronisation pause, the time-out poll transmits (an
+application telegram, a GAP poll or the token): the station does not fall silent after a lost reply. -/
+theorem reply_timeout_transmits (c : Ctx) (now l : Int) (hinv : Inv c.s c.apps) (hon : c.s.online = true)
+    (htx : c.tx = none) (hrx : c.rx = []) (hl : c.s.lastBusActivity = some l)
+    (addr : Nat) (d : UseData) (hst : c.s.st = .awaitData addr d) (hlate : l + (c.s.p.silence : Nat) < now) :
+    ∃ c', pollInner c now false = .ok c' ∧ c'.tx ≠ none := by
+  obtain ⟨c', h, -, -, -, -, -⟩ := silent_bus_progress c now l hinv hon htx hrx hl hlate
+  exact ⟨c', h, (silent_poll_transmits_iff c now l hinv hon htx hrx hl hlate c' h).2 (by simp [pollsToTx, hst])⟩
+
 end PV.C06
